@@ -680,6 +680,11 @@ class Interp:
             tyl = re.sub(r"^(&(mut )?|dyn |\*const |\*mut )+", "", ty).split("::")[-1]
             k = (tyl, trl, meth)
             if k in prog.methods:
+                nref = len(re.match(r"^((?:&(?:mut )?)*)", ty).group(1).replace("mut ", ""))
+                if nref and trl in ("PartialEq", "PartialOrd", "Ord", "Eq"):
+                    return ("mirderef", prog.methods[k], nref, 2)
+                if nref and trl in ("Display", "Debug", "Hash"):
+                    return ("mirderef", prog.methods[k], nref, 1)
                 return ("mir", prog.methods[k])
             if (tyl in prog.layout.structs or tyl in prog.layout.enums) and (trl, meth) in prog.trait_defaults:
                 return ("mir", prog.trait_defaults[(trl, meth)])
@@ -732,6 +737,14 @@ class Interp:
         if r is None or r[0] == "none":
             raise Unsupported("no MIR body and no model for call: " + callee)
         if r[0] == "mir":
+            return self.call_mir(r[1], args)
+        if r[0] == "mirderef":
+            # std's forwarding impls for references (`impl PartialEq<&B> for &A`, `impl Display for &T`, ...)
+            args = list(args)
+            for k in range(min(r[3], len(args))):
+                for _ in range(r[2]):
+                    if isinstance(args[k], Ref) and isinstance(args[k].get(), Ref):
+                        args[k] = args[k].get()
             return self.call_mir(r[1], args)
         self.models_hit.add(getattr(r[1], "__name__", "?"))
         return r[1](self, args, callee)
